@@ -684,6 +684,12 @@ where
         }
     }
 
+    /// Verification hook: one pass of the periodic timeout checks (fail-safe timer, commissioning window).
+    #[cfg(rs_matter_verif)]
+    pub fn verif_check_timeouts(&self) -> Result<(), Error> {
+        self.check_timeouts(None)
+    }
+
     fn check_timeouts(&self, exch_id: Option<ExchangeId>) -> Result<(), Error> {
         let mut notify_mdns = || self.matter.transport().notify_mdns_changed();
         let mut notify_change =
